@@ -332,3 +332,19 @@ def c05_run(sc, results):
             if ids_best != want:
                 out.append((f"'best' mode lists queries {ids_best}, queries with an alignment are {want}", None, "best-mode"))
     return out
+
+
+# ---------------------------------------------------------------- C07
+def c07_wellformed(text):
+    """a written XMAP: header block then zero or more 15-column records"""
+    lines = text.split("\n")
+    if lines and lines[-1] == "":
+        lines.pop()
+    hdr = [l for l in lines if l.startswith("#")]
+    data = [l for l in lines if not l.startswith("#")]
+    if not any(l.startswith("#h") for l in hdr) or not any(l.startswith("#f") for l in hdr):
+        return "header lines #h / #f missing"
+    for l in data:
+        if len(l.split("\t")) != 15:
+            return f"record with {len(l.split(chr(9)))} columns"
+    return None
